@@ -166,7 +166,13 @@ def check_C09(tier, seed):
     wd = workdir("C09")
     insts = universe.semantic_universe(tier, seed + 200, stress=True)
     # near-valid queries (one or two targeted mutations of a valid one): whatever the frontend still accepts must execute without panicking
-    insts = universe.renumber(insts + universe.mutated_universe(tier, seed + 200))
+    import systematic, copy
+    fam = systematic.sharedvar_instances(tier, seed)      # one variable at two sites; also with a null element / null value where the loosest use would allow one
+    for i in list(fam):
+        j = copy.deepcopy(i); v = j["args"]["v"]
+        j["args"]["v"] = G.L([G.I(2), G.NULL]) if v["k"] == "list" else G.NULL
+        fam.append(j)
+    insts = universe.renumber(insts + fam + universe.mutated_universe(tier, seed + 200))
     obs = observe(insts, wd, "ir,batch:2,prune", seed)
     n_exec = 0; seen = set(); nontrivial = 0; toolong = []
     for inst, o in zip(insts, obs):
